@@ -534,6 +534,13 @@ class Budget(Exception):
     pass
 
 
+class Diverged(Exception):
+    """The call being modelled does not return on this path (a closure it runs panics)."""
+    def __init__(self, where):
+        Exception.__init__(self, 'diverges at %s' % (where,))
+        self.where = where
+
+
 class NotDerivable(Exception):
     def __init__(self, msg, where=None):
         Exception.__init__(self, msg)
@@ -959,6 +966,7 @@ class Interp:
                  frob_q=None, extra_transfer=None, stop_on_unknown_switch=False):
         self.facts = facts
         self.mode = mode
+        self._sched, self._sched_taken, self._sched_new = None, [], []
         self.inline = inline or (lambda p: False)
         self.max_steps = max_steps
         self.max_paths = max_paths
@@ -1039,10 +1047,14 @@ class Interp:
         body = fr.body
         while True:
             self._cur_path = pth        # for hooks that record events while statements (not calls) are interpreted
-            if stop_at is not None and bb == stop_at:
+            resume_sched = None
+            if isinstance(bb, tuple) and bb and bb[0] == 'resume':
+                # re-execution of the call terminating block bb[1] under another schedule of model choices (see choose)
+                _, bb, resume_sched = bb
+            if resume_sched is None and stop_at is not None and bb == stop_at:
                 results.append((pth, ('stopped', fr), {}))
                 return
-            if self.block_hook is not None:
+            if resume_sched is None and self.block_hook is not None:
                 nb = self.block_hook(fr, bb, pth)
                 if nb is not None:
                     self.steps += 1
@@ -1054,9 +1066,10 @@ class Interp:
             if self.steps > self.max_steps:
                 raise Budget('step budget exceeded in %s' % body.path)
             blk = body.blocks[bb]
-            for s in blk['stmts']:
-                if s['k'] == 'assign':
-                    self._assign(fr, s)
+            if resume_sched is None:
+                for s in blk['stmts']:
+                    if s['k'] == 'assign':
+                        self._assign(fr, s)
             t = blk['term']
             k = t['k']
             if k == 'goto':
@@ -1084,7 +1097,28 @@ class Interp:
                 bb = t['target']
             elif k == 'call':
                 self._fork_ctx = (work, results)
-                nxt = self._call(fr, t, pth)
+                # model code may make nondeterministic choices (a closure with several paths driven by an iterator
+                # model): the call is executed under a schedule of choices, and re-executed from a snapshot of the
+                # state before it for every other schedule that turns out to exist
+                saved_sched = (self._sched, self._sched_taken, self._sched_new)
+                self._sched, self._sched_taken, self._sched_new = list(resume_sched or []), [], []
+                snap = (dict(fr.store), list(pth.labels), list(pth.events))
+                try:
+                    try:
+                        nxt = self._call(fr, t, pth)
+                    except Diverged as dv_:
+                        pth.events.append(('diverge', dv_.where))
+                        results.append((pth, ('diverges', dv_.where), {}))
+                        nxt = 'diverged'
+                    for sch in self._sched_new:
+                        nf = self._clone_frame(fr)
+                        nf.store = dict(snap[0])
+                        np_ = Path()
+                        np_.labels = list(snap[1])
+                        np_.events = list(snap[2])
+                        work.append((nf, ('resume', bb, sch), np_))
+                finally:
+                    self._sched, self._sched_taken, self._sched_new = saved_sched
                 if nxt == 'diverged':
                     return
                 if t['target'] is None:
@@ -1178,6 +1212,23 @@ class Interp:
             else:
                 raise NotDerivable('unsupported terminator %s' % k, t.get('span'))
 
+    def choose(self, n, where=None):
+        """Nondeterministic choice among n alternatives inside the model of a call: returns the alternative of the
+        current schedule (0 by default) and registers the other schedules for re-execution of the call."""
+        if self._sched is None:
+            raise NotDerivable('a model needs to fork outside of a call', where)
+        pos = len(self._sched_taken)
+        if pos < len(self._sched):
+            j = self._sched[pos]
+            if j >= n:
+                raise NotDerivable('re-execution of a call made different choices', where)
+        else:
+            j = 0
+            for alt in range(1, n):
+                self._sched_new.append(list(self._sched_taken) + [alt])
+        self._sched_taken.append(j)
+        return j
+
     def fork_alternatives(self, fr, t, pth, alts):
         """alts = [(value, labels, events)]: the call `t` returns one of the values; the labels / events of the
         computation that produced it (e.g. an interpreted closure with several paths) become part of the path."""
@@ -1209,30 +1260,23 @@ class Interp:
             self.steps = sub.steps
             self.call_sites += sub.call_sites
             return [(r[0], r[1]) for r in results if not (isinstance(r[1], tuple) and r[1] and r[1][0] == 'diverges')]
-        caps = Agg([fr._project(fr.store.get(v.root, TOP), v.proj) if isinstance(v, Ref) else v for v in captures.items], captures.kind)
-        # by-value snapshot of captured references is enough for closures that only read their captures
-        sub = self._sub()
-        ref_caps = [isinstance(v, Ref) for v in captures.items]
-        extra = {}
-        caps2 = []
-        for k, v in enumerate(captures.items):
-            if isinstance(v, Ref):
-                key = ('up', k, len(fr.store), 'ro')
-                val = self._ref_value(fr, v)
-                for _ in range(8):
-                    if not isinstance(val, Ref):
-                        break
-                    val = self._ref_value(fr, val)
-                extra[key] = val
-                caps2.append(Ref(key, []))
-            else:
-                caps2.append(v)
-        caps2 = Agg(caps2, captures.kind)
-        first = ('byref', caps2) if cbody.local_ty(1).startswith('&') else caps2
-        results = sub.run(path, [first] + list(args), extra=extra)
-        self.steps = sub.steps
-        self.call_sites += sub.call_sites
-        return [(r[0], r[1]) for r in results if not (isinstance(r[1], tuple) and r[1] and r[1][0] == 'diverges')]
+        # same preparation as a read-write call (captured and nested references get places in the callee frame); nothing is
+        # written back: for closures that only read their captures
+        results, back, restore, _div = self._closure_run(fr, path, captures, args, where)
+        backmap = dict(back)
+
+        def unroot(x, depth=0):
+            if depth > 6:
+                return x
+            if isinstance(x, Ref) and x.root in backmap:
+                o_ = backmap[x.root]
+                return Ref(o_.root, list(o_.proj) + list(x.proj))
+            if isinstance(x, Agg) and type(x) is Agg:
+                return Agg([unroot(y, depth + 1) for y in x.items], x.kind)
+            if isinstance(x, Opt):
+                return Opt(x.tag, unroot(x.payload, depth + 1), x.label)
+            return x
+        return [(r[0], restore(unroot(r[1]))) for r in results]
 
     def fork_values(self, fr, t, pth, values, label):
         """The call `t` may return any of `values` (an over-approximation decided by the transfer function):
@@ -1719,6 +1763,37 @@ class Interp:
         if trait == 'std::cmp::PartialEq' and name in ('eq', 'ne') and len(args) == 2:
             a = self._as_lin(fr.deref_operand(args[0]))
             b = self._as_lin(fr.deref_operand(args[1]))
+            sty_ = (c.get('self_ty') or '')
+            if sty_.startswith('(') and type(a) is Agg and type(b) is Agg and len(a.items) == len(b.items) and a.items and self._sched is not None:
+                # tuples compare component by component, left to right, stopping at the first difference: each
+                # undecided component comparison is a choice of the model (the calling path forks)
+                equal = True
+                for x_, y_ in zip(a.items, b.items):
+                    for _ in range(3):
+                        if isinstance(x_, Ref):
+                            x_ = self._ref_value(fr, x_)
+                        if isinstance(y_, Ref):
+                            y_ = self._ref_value(fr, y_)
+                    x_, y_ = self._as_lin(x_), self._as_lin(y_)
+                    if isinstance(x_, Int) and isinstance(y_, Int):
+                        if x_.v != y_.v:
+                            equal = False
+                            break
+                        continue
+                    if not (isinstance(x_, Lin) and isinstance(y_, Lin)):
+                        equal = None
+                        break
+                    lab_ = ('eq', x_, y_, where)
+                    prev_ = pth.decided(lab_)
+                    if prev_ is None:
+                        prev_ = bool(self.choose(2, where))
+                        pth.labels = pth.labels + [(lab_, 1 if prev_ else 0)]
+                    if not prev_:
+                        equal = False
+                        break
+                if equal is not None:
+                    fr.storev(dest, Int(int(equal == (name == 'eq')), 1))
+                    return
             if isinstance(a, SBit) or isinstance(b, SBit):
                 sa, sb = to_sbit(a), to_sbit(b)
                 if sa is not None and sb is not None:
@@ -1778,6 +1853,16 @@ class Interp:
             fr.storev(dest, Bits(n, nb) if n is not None else TOP)
             return
 
+        # ---- coordinate views: as_tuple() of a point is the tuple of references to its three coordinate fields
+        if name == 'as_tuple' and trait in ('CurveProjective', 'CurveAffine') and len(args) == 1:
+            tgt_ = fr.ref_place_of(args[0])
+            if isinstance(tgt_, dict):
+                root_, proj_ = fr.root_of(tgt_)
+                cur_ = fr._project(fr.store.get(root_, TOP), proj_)
+                if isinstance(cur_, Agg) and len(cur_.items) >= 2:
+                    n_ = 3 if trait == 'CurveProjective' else 2
+                    fr.storev(dest, Agg([Ref(root_, list(proj_) + [['f', i_, '']]) for i_ in range(n_)]))
+                    return
         # ---- local callee: interpret with a summary frame
         if c.get('res_local') and self.inline(res) and self.facts.body(res) is not None:
             return self._inline_call(fr, t, res, pth)
@@ -1846,28 +1931,31 @@ class Interp:
             return fr._project(fr.store[('*', r.root)], [e for e in r.proj if e[0] != 'deref'])
         return fr._project(fr.store.get(r.root, TOP), r.proj)
 
-    def _call_closure_rw(self, fr, path, captures, args, where):
-        """Call a closure whose captured `&mut` state lives in frame `fr`: captured references
-        are re-rooted in the callee frame and the final values written back."""
-        if isinstance(path, tuple) and path and path[0] == 'fn-item':
-            return self._call_fn_item(fr, path[1], args, where)
+    def _closure_run(self, fr, path, captures, args, where):
+        """Run a closure whose captured state lives in frame `fr` on all its paths.  Captured references (also those
+        nested in captured closures / structs) and references among the arguments are re-rooted in the callee frame.
+        Returns (non-diverging results, back, restore): `back` lists (callee key, caller reference) pairs to write
+        back, `restore` maps values that mention callee places of nested captures to the caller's places."""
         cbody = self.facts.body(path)
-        if cbody is None:
-            raise NotDerivable('closure body not available', where)
-        if captures is None:
-            # a plain function used as a callable
-            sub = self._sub()
-            results = sub.run(path, list(args))
-            self.steps = sub.steps
-            self.call_sites += sub.call_sites
-            results = [r for r in results if not (isinstance(r[1], tuple) and r[1] and r[1][0] == 'diverges')]
-            if len(results) != 1:
-                raise NotDerivable('function %s used as a callable has %d paths' % (path, len(results)), where)
-            return results[0][1]
         extra = {}
         caps = []
         back = []
         nested_n = [0]
+        nested_back = {}
+
+        def restore(x, depth=0):
+            # the inverse of deep_caps on a value that is written back to the caller's frame: references to the places
+            # that stood for the caller's places designate those places again
+            if depth > 6:
+                return x
+            if isinstance(x, Ref) and x.root in nested_back:
+                o_ = nested_back[x.root]
+                return Ref(o_.root, list(o_.proj) + list(x.proj))
+            if isinstance(x, Agg) and type(x) is Agg and x.items:
+                ys = [restore(y, depth + 1) for y in x.items]
+                if any(a_ is not b_ for a_, b_ in zip(ys, x.items)):
+                    return Agg(ys, x.kind)
+            return x
 
         def deep_caps(x, tag, depth=0):
             # a captured value that itself holds references into the caller's frame (a captured closure with its own
@@ -1886,6 +1974,7 @@ class Interp:
                     nested_n[0] += 1
                     key_ = ('upn', tag, len(fr.store), nested_n[0])
                     extra[key_] = deep_caps(val_, tag, depth + 1)
+                    nested_back[key_] = y
                     out.append(Ref(key_, []))
                     changed = True
                 elif isinstance(y, Agg) and type(y) is Agg:
@@ -1951,11 +2040,47 @@ class Interp:
         self.steps = sub.steps
         self.fresh = sub.fresh
         self.call_sites += sub.call_sites
+        diverging_ = [r for r in results if isinstance(r[1], tuple) and r[1] and r[1][0] == 'diverges']
         results = [r for r in results if not (isinstance(r[1], tuple) and r[1] and r[1][0] == 'diverges')]
-        if len(results) != 1:
-            raise NotDerivable('closure %s does not evaluate to a single value on a modelled item (%d paths)' % (path, len(results)), where)
-        pth2, ret, outs = results[0]
+        return results, back, restore, diverging_
+
+    def _call_closure_rw(self, fr, path, captures, args, where):
+        """Call a closure whose captured `&mut` state lives in frame `fr`: captured references
+        are re-rooted in the callee frame and the final values written back."""
+        if isinstance(path, tuple) and path and path[0] == 'fn-item':
+            return self._call_fn_item(fr, path[1], args, where)
+        cbody = self.facts.body(path)
+        if cbody is None:
+            raise NotDerivable('closure body not available', where)
+        if captures is None:
+            # a plain function used as a callable
+            sub = self._sub()
+            results = sub.run(path, list(args))
+            self.steps = sub.steps
+            self.call_sites += sub.call_sites
+            results = [r for r in results if not (isinstance(r[1], tuple) and r[1] and r[1][0] == 'diverges')]
+            if len(results) != 1:
+                raise NotDerivable('function %s used as a callable has %d paths' % (path, len(results)), where)
+            return results[0][1]
+        results, back, restore, diverging_ = self._closure_run(fr, path, captures, args, where)
         cp_ = getattr(self, '_cur_path', None)
+        if len(results) + len(diverging_) > 1 and self._sched is not None and cp_ is not None:
+            # a closure with several paths: the calling path forks (by re-execution of the call under each choice); a
+            # path on which the closure panics ends the calling path there
+            allr = results + diverging_
+            pth2, ret, outs = allr[self.choose(len(allr), where)]
+            cp_.labels = cp_.labels + list(pth2.labels)
+            if isinstance(ret, tuple) and ret and ret[0] == 'diverges':
+                cp_.events.extend(pth2.events)
+                raise Diverged(ret[1] if len(ret) > 1 else where)
+        elif not results and diverging_ and self._sched is not None and cp_ is not None:
+            cp_.labels = cp_.labels + list(diverging_[0][0].labels)
+            cp_.events.extend(diverging_[0][0].events)
+            raise Diverged(diverging_[0][1][1] if len(diverging_[0][1]) > 1 else where)
+        elif len(results) != 1:
+            raise NotDerivable('closure %s does not evaluate to a single value on a modelled item (%d paths)' % (path, len(results)), where)
+        else:
+            pth2, ret, outs = results[0]
         if cp_ is not None and pth2.events:
             # what the closure did (recorded by transfer functions) belongs to the path that called it
             cp_.events.extend(pth2.events)
@@ -1964,7 +2089,8 @@ class Interp:
                 fr.store[k_] = outs[k_]
         for key, v in back:
             if key in outs:
-                fr.store[v.root] = fr._update(fr.store.get(v.root), list(v.proj), outs[key]) if v.proj else outs[key]
+                ov_ = restore(outs[key])
+                fr.store[v.root] = fr._update(fr.store.get(v.root), list(v.proj), ov_) if v.proj else ov_
         backmap = dict(back)
 
         def unroot(x):
@@ -1977,7 +2103,7 @@ class Interp:
             if isinstance(x, Opt):
                 return Opt(x.tag, unroot(x.payload), x.label)
             return x
-        return unroot(ret)
+        return restore(unroot(ret))
 
     def _call_fn_item(self, fr, fn_, args, where):
         """A call of a function item that has no body in the crate, synthesised from a callable use: the transfer
